@@ -571,7 +571,7 @@ func (g *gen) input() ([]byte, string) {
 	// after a failed serialisation may depend on which entry finishes first; with free-running
 	// handlers that order would be a goroutine race and a violation would not replay).
 	if top <= 4 || top == 14 || (g.sched && top >= 5 && top <= 10) {
-		g.unser = g.t.Chance("unser_input", 1, 12)
+		g.unser = g.t.Chance("unser_input", 1, 8)
 	}
 	var s, label string
 	switch {
